@@ -33,7 +33,8 @@ META = {
         'token splitting, interleaved rows, char[] sizing, CRLF handling beyond the continuation pattern - these are '
         'statements about the language the regex chain accepts.'),
     'floors': {'C02.NAME-EXACT': 1, 'C02.PAT-PAIR': 2, 'C02.ANGLE': 8, 'C02.RAW': 2, 'C02.DISPATCH': 1, 'C02.BINARY': 1,
-               'C02.CONT': 1, 'C02.INTCONV': 4, 'C02.COMMENT-FIRST': 1},
+               'C02.CONT': 1, 'C02.INTCONV': 4, 'C02.COMMENT-FIRST': 1, 'C02.PER-INSTANCE': 2, 'C02.TRIM': 2, 'C02.CHARLEN': 2,
+               'C02.TOKEN-WS': 1},
 }
 
 
@@ -371,6 +372,202 @@ def check_comment_first(ctx, yc):
                   'as a keyword pair', construct='comment-line filter')
 
 
+MUTATORS = {'append', 'extend', 'update', 'setdefault', 'pop', 'clear', 'insert', 'remove', 'add', 'popitem'}
+
+
+def _fresh_mutable(v):
+    if isinstance(v, (ast.Dict, ast.List, ast.Set, ast.ListComp, ast.DictComp, ast.SetComp)):
+        return True
+    return isinstance(v, ast.Call) and call_name(v) in ('dict', 'list', 'set', 'OrderedDict', 'defaultdict', 'deque')
+
+
+def check_per_instance(ctx, yc):
+    """C02.PER-INSTANCE: a container that methods fill through `self` must be created per object."""
+    init = yc.method('__init__')
+    class_level = {}
+    for st in yc.cls.body:
+        if isinstance(st, ast.Assign):
+            for t in st.targets:
+                if isinstance(t, ast.Name):
+                    class_level[t.id] = st
+        elif isinstance(st, ast.AnnAssign) and isinstance(st.target, ast.Name) and st.value is not None:
+            class_level[st.target.id] = st
+    rebound = {}
+    for st in init.node.body:                      # unconditional statements of the constructor only
+        if isinstance(st, ast.Assign):
+            for t in st.targets:
+                if isinstance(t, ast.Attribute) and isinstance(t.value, ast.Name) and t.value.id == 'self':
+                    rebound[t.attr] = st
+    mutated = {}
+    for name, f in yc.methods.items():
+        for n in walk_local(f.node):
+            base = None
+            if isinstance(n, (ast.Assign, ast.AugAssign)):
+                for t in (n.targets if isinstance(n, ast.Assign) else [n.target]):
+                    b = t
+                    depth = 0
+                    while isinstance(b, ast.Subscript):
+                        b = b.value
+                        depth += 1
+                    if depth and isinstance(b, ast.Attribute) and isinstance(b.value, ast.Name) and b.value.id == 'self':
+                        base = b.attr
+            elif isinstance(n, ast.Call) and isinstance(n.func, ast.Attribute) and n.func.attr in MUTATORS:
+                b = n.func.value
+                while isinstance(b, ast.Subscript):
+                    b = b.value
+                if isinstance(b, ast.Attribute) and isinstance(b.value, ast.Name) and b.value.id == 'self':
+                    base = b.attr
+            if base is not None:
+                mutated.setdefault(base, (f, n))
+    ctx.need(mutated, 'yanny: no attribute filled through self found')
+    for attr in sorted(mutated):
+        f, n = mutated[attr]
+        shared = attr in class_level and _fresh_mutable(class_level[attr].value) and attr not in rebound
+        ctx.check('C02.PER-INSTANCE', not shared, f, n,
+                  'self.%s is filled in place by %s and %s' % (attr, f.qualname, 'created in __init__' if attr in rebound else
+                                                                 'not a class-level container'),
+                  msg='self.%s is filled in place (%s) but is created once at class level (`%s`) and never re-created in __init__: every '
+                      'yanny object shares it, so a second file that re-uses a structure and column name is read with the first file\'s '
+                      'types' % (attr, src(n)[:50], src(class_level[attr])[:40] if attr in class_level else ''),
+                  construct='shared container yanny.%s' % attr)
+
+
+def _strip_kind(e, fa):
+    """'both' / 'left' / 'right' / None for X.strip() / lstrip / rstrip, following one single-definition name."""
+    if isinstance(e, ast.Name) and fa is not None:
+        d = fa.resolve(e)
+        if d is not None:
+            e = d
+    if isinstance(e, ast.Call) and isinstance(e.func, ast.Attribute) and not e.args:
+        return {'strip': 'both', 'lstrip': 'left', 'rstrip': 'right'}.get(e.func.attr)
+    return None
+
+
+def check_trim(ctx, yc):
+    """C02.TRIM: whatever path trailing_comment() takes, a line reaches the row / pair dispatch without leading or trailing
+    blanks, tabs or CR (the patterns downstream are anchored with ^ and capture (.*) to the end of line)."""
+    f = yc.method('_parse')
+    fa = FA(f)
+    g = yc.method('trailing_comment')
+    calls = [c for c in walk_local(f.node) if isinstance(c, ast.Call) and isinstance(c.func, ast.Attribute) and c.func.attr == 'trailing_comment']
+    ctx.need(len(calls) == 1 and calls[0].args, '_parse: the call of trailing_comment was not found')
+    arg = calls[0].args[0]
+    kind = _strip_kind(arg, fa)
+    rets = [r for r in walk_local(g.node) if isinstance(r, ast.Return) and r.value is not None]
+    ctx.need(rets, 'trailing_comment: no return found')
+    bad_rets = [r for r in rets if _strip_kind(r.value, None) not in ('both', 'right')]
+    # the result may also be stripped by the caller afterwards
+    after = None
+    st = calls[0]
+    while st is not None and not isinstance(st, ast.stmt):
+        st = getattr(st, '_parent', None)
+    if isinstance(st, ast.Assign) and isinstance(st.value, ast.Call) and isinstance(st.value.func, ast.Attribute) \
+            and st.value.func.attr in ('strip', 'rstrip') and st.value.func.value is calls[0]:
+        after = st.value.func.attr
+    left_ok = kind in ('both', 'left') or after == 'strip'
+    right_ok = kind in ('both', 'right') or after in ('strip', 'rstrip') or not bad_rets
+    ctx.check('C02.TRIM', left_ok, f, calls[0], 'the line is left-trimmed before the comment is cut (%s)' % src(arg),
+              msg='_parse hands `%s` to trailing_comment: leading blanks are not removed before the row / pair patterns' % src(arg),
+              construct='trim left: ' + src(arg))
+    ctx.check('C02.TRIM', right_ok, g if bad_rets and kind not in ('both', 'right') else f, bad_rets[0] if bad_rets else calls[0],
+              'the line is right-trimmed on every path (argument %s; %d of %d returns of trailing_comment trim)' %
+              (src(arg), len(rets) - len(bad_rets), len(rets)),
+              msg='the line given to trailing_comment is not right-trimmed (`%s`) and trailing_comment returns `%s` untrimmed on the path '
+                  'where the last # is inside quotes or absent: trailing blanks or a CR stay in the last value' %
+                  (src(arg), src(bad_rets[0].value) if bad_rets else ''),
+              construct='trim right: %s / %s' % (src(arg), src(bad_rets[0].value) if bad_rets else ''))
+
+
+def _is_len_iter(e):
+    """Iterable of lengths: [len(x) for ...], (len(x) for ...), map(len, X), or the same one level up through max()."""
+    if isinstance(e, (ast.ListComp, ast.GeneratorExp)):
+        elt = e.elt
+        if isinstance(elt, ast.Call) and call_name(elt) == 'len':
+            return True
+        if isinstance(elt, ast.Call) and call_name(elt) == 'max':
+            return _max_of_lengths(elt)
+        return False
+    if isinstance(e, ast.Call) and call_name(e) == 'map' and e.args and isinstance(e.args[0], ast.Name) and e.args[0].id == 'len':
+        return True
+    return False
+
+
+def _max_of_lengths(c):
+    return bool(c.args) and _is_len_iter(c.args[0])
+
+
+def check_charlen(ctx, yc):
+    """C02.CHARLEN: a char[] column without a declared width is as wide as its LONGEST value."""
+    f = yc.method('char_length')
+    n = 0
+    for r in walk_local(f.node):
+        if not (isinstance(r, ast.Return) and r.value is not None):
+            continue
+        v = r.value
+        maxes = [c for c in ast.walk(v) if isinstance(c, ast.Call) and call_name(c) == 'max' and isinstance(c.func, ast.Name)]
+        if not maxes:
+            continue
+        outer = maxes[0]
+        if isinstance(v, ast.Call) and call_name(v) == 'len' and v.args and isinstance(v.args[0], ast.Call) and call_name(v.args[0]) == 'max':
+            inner = v.args[0]
+            keyed = any(k.arg == 'key' and isinstance(k.value, ast.Name) and k.value.id == 'len' for k in inner.keywords)
+            good = keyed
+        elif v is outer:
+            good = _max_of_lengths(outer) or (_is_len_iter(outer.args[0]) if outer.args else False)
+        else:
+            continue
+        n += 1
+        ctx.check('C02.CHARLEN', good, f, r, 'the width is the maximum of the value lengths: %s' % src(v)[:70],
+                  msg='char_length returns `%s`: that is the length of the lexicographically largest value (or not a maximum of lengths), '
+                      'not of the longest one; longer cells are truncated by the column dtype' % src(v)[:80],
+                  construct='char width: ' + src(v)[:80])
+    ctx.need(n >= 1, 'char_length: no max-of-lengths return found')
+
+
+def check_token_ws(ctx, yc):
+    """C02.TOKEN-WS: a bare word ends at the first blank OR tab, and a word followed only by white space is still split off."""
+    f = yc.method('get_token')
+    top = [st for st in f.node.body if isinstance(st, ast.If)]
+    ctx.need(top, 'get_token: dispatch on the first character not found')
+    node = top[-1]
+    while node.orelse and len(node.orelse) == 1 and isinstance(node.orelse[0], ast.If):
+        node = node.orelse[0]
+    bare = node.orelse
+    ctx.need(bare, 'get_token: the bare-word branch not found')
+    splits = []
+    for st in bare:
+        for c in walk_local(st):
+            if isinstance(c, ast.Call) and isinstance(c.func, ast.Attribute) and c.func.attr in ('split', 'partition', 'rpartition', 'match', 'search'):
+                splits.append(c)
+    ctx.need(splits, 'get_token: the bare-word split not found')
+    c = splits[0]
+    ok, why = False, 'unrecognised'
+    if dotted(c.func.value) == 're' and c.func.attr == 'split' and c.args and isinstance(c.args[0], ast.Constant):
+        items = rx.normal(c.args[0].value)
+        inner = None
+        if len(items) == 1 and items[0][0] == 'MAX_REPEAT' and items[0][1] >= 1:
+            inner = items[0][3][0]
+        elif len(items) == 1 and items[0][0] in ('IN', 'CATEGORY'):
+            inner = items[0]
+        ws = inner is not None and rx.item_admits(inner, ' ') and rx.item_admits(inner, '\t')
+        ms = (len(c.args) > 2 and try_fold(c.args[2]) == 1) or any(k.arg == 'maxsplit' and try_fold(k.value) == 1 for k in c.keywords)
+        ok = ws and ms
+        why = 're.split over %r, maxsplit %s' % (c.args[0].value, 1 if ms else '?')
+    elif c.func.attr in ('partition', 'rpartition'):
+        why = 'splits at the literal %s only: a TAB does not end the word' % (src(c.args[0]) if c.args else '?')
+    elif c.func.attr == 'split':
+        sep = c.args[0] if c.args else None
+        if sep is None or (isinstance(sep, ast.Constant) and sep.value is None):
+            why = 'str.split without separator drops trailing white space first, so a word followed only by blanks is not split and falls back to the unsplit text'
+        else:
+            why = 'splits at the literal %s only' % src(sep)
+    else:
+        ctx.need(False, 'get_token: bare-word split idiom not recognised: %s' % src(c)[:60])
+    ctx.check('C02.TOKEN-WS', ok, f, c, 'a bare word is split off at the first run of blanks/tabs (%s)' % why,
+              msg='get_token splits a bare word with `%s`: %s' % (src(c)[:60], why), construct='bare-word split: ' + src(c)[:60])
+
+
+
 def run(ctx):
     repo = ctx.repo
     yc = YannyClass(repo)
@@ -383,6 +580,11 @@ def run(ctx):
     check_binary(ctx, yc)
     check_cont(ctx, yc)
     check_comment_first(ctx, yc)
+    check_per_instance(ctx, yc)
+    check_trim(ctx, yc)
+    check_charlen(ctx, yc)
+    check_token_ws(ctx, yc)
+    ctx.cover(yc.method('trailing_comment'), yc.method('char_length'), yc.method('get_token'))
     # INTCONV shared with C01 (same rule function, reported under C02's rule id)
     sub = type(ctx)(ctx.prop, ctx.repo, ctx.tier)
     check_intconv(sub, yc)
